@@ -309,6 +309,8 @@ def run(ctx):
     ctx.prove()
     n = 350 if ctx.tier == "quick" else 8000
     rng = ctx.rng
+    from . import globtie
+    globtie.tie(ctx, 1500 if ctx.tier == "quick" else 40000, "--include-files / --exclude-files")
     mesh_options_stream(ctx, 24 if ctx.tier == "quick" else 600)
     options_agreement_stream(ctx, 150 if ctx.tier == "quick" else 4000)
     cases = [gen(rng) for _ in range(n)]
@@ -358,7 +360,7 @@ def run(ctx):
                 ".txt/.tab (unsupported, .tab optionally mapped by --read-as), extension-less VTK files (sniffed); contents equal / "
                 "differing / damaged; one-sided files, empty directories; include/exclude patterns on relative paths, both ignore "
                 "flags. non-trivial = >= 2 files and (a one-sided file or a filter)")
-    return ctx.finish(assumptions=["fnmatch, os.walk and io.is_supported are oracles (tables given to the model)",
+    return ctx.finish(assumptions=["os.walk and io.is_supported are oracles (tables given to the model); fnmatch is modelled (Model/Glob.v) and compared with PatternFilter, the per-scenario filter tables are still computed with it",
                                    "the per-path file-mode verdict is observed by running file mode on the same pair with the same options"],
                       trusted=["harness/c12.py"])
 
